@@ -515,18 +515,25 @@ func workerMain(props map[string]*Prop, a []string) {
 		}
 	}
 	go func() {
-		lastCur, lastSt, delay0 := int64(-2), int64(0), int64(0)
+		// (this loop must not allocate while cases are running normally: C04 measures allocation)
+		baseCur, baseSt, base, baseAt := int64(-2), int64(0), int64(0), time.Time{}
 		for {
 			time.Sleep(500 * time.Millisecond)
 			cur, st := c.cur.Load(), c.curStart.Load()
 			burnt := time.Duration(cpuNanos() - c.curCPU.Load())
 			waited := time.Since(time.Unix(0, st))
-			if cur != lastCur || st != lastSt {
-				lastCur, lastSt, delay0 = cur, st, runDelayNanos()
+			// blocked = a long wait with no CPU used AND none wanted: threads that are runnable but not
+			// scheduled (an overloaded machine) are starved, not hung. Half-way through the wait the
+			// run-queue delay of this process is sampled; a blocked process gains next to none afterwards.
+			blocked := false
+			if cur >= 0 && st > 0 && waited > 5*hangAfter && burnt < time.Second {
+				if cur != baseCur || st != baseSt {
+					baseCur, baseSt, base, baseAt = cur, st, runDelayNanos(), time.Now()
+				}
+				if waited > 10*hangAfter && time.Since(baseAt) > 4*hangAfter {
+					blocked = time.Duration(runDelayNanos()-base) < 5*time.Second || waited > 100*hangAfter
+				}
 			}
-			// blocked = a long wait with no CPU used AND none wanted: threads that are runnable but
-			// not scheduled (an overloaded machine) are starved, not hung
-			blocked := waited > 10*hangAfter && burnt < time.Second && (time.Duration(runDelayNanos()-delay0) < 5*time.Second || waited > 100*hangAfter)
 			if cur >= 0 && st > 0 && (burnt > hangAfter || blocked) {
 				buf := make([]byte, 1<<20)
 				s1 := PlencFrame(buf[:runtime.Stack(buf, true)])
